@@ -218,7 +218,7 @@ def run(ctx):
             for ln in range(0, 5):
                 for tail in itertools.product(SYMS, repeat=ln):
                     cases.append((100, p0, ['n1', *tail]))
-        ctx.extra['exhaustive'] = 'all histories of <= 6 events (first event n1|n2, then <= 5 of 10 symbols) from (c=100,p=0); <= 5 events from p=1,2'
+        ctx.extra['exhaustive_subspace'] = 'all histories of <= 6 events (first event n1|n2, then <= 5 of 10 symbols) from (c=100,p=0); <= 5 events from p=1,2'
     lines = [f'{c} {p} ' + ' '.join(evs) for c, p, evs in cases]
     model = ctx.model(lines)
     shrunk = {}
